@@ -150,6 +150,26 @@ QuotedFaults(s) ==
                                     /\ RefClass(s[e].locals[l].refs[r].rk) \in {"glob", "local"}} }
   IN top \cup loc
 
+\* references to locals and to blocks (blockaddress / uselistorder_bb) redirected to the bare numeral %0 in a
+\* function all of whose values are named: an ID nothing has (it must not be taken for the first named block, whose
+\* ID field is also 0)
+ValueKinds == {"param", "block", "inst", "lpad", "catchswitch", "catchpad", "cleanuppad"}
+AllNamed(f) == f.k = "func" /\ f.locals # <<>> /\ \A l \in 1..Len(f.locals) : f.locals[l].lk \in ValueKinds => f.locals[l].n # ""
+FuncNamed(s, n) == \E e \in 1..Len(s) : s[e].k = "func" /\ s[e].n = n /\ AllNamed(s[e])
+NumeralFaults(s) ==
+  LET topaux == { [s EXCEPT ![e] = [@ EXCEPT !.refs = SetRefAux(@, r, UndefN)]] :
+                 <<e, r>> \in {<<e, r>> \in (1..Len(s)) \X (1..8) : r <= Len(s[e].refs) /\ RefClass(s[e].refs[r].rk) = "block"
+                                                                        /\ FuncNamed(s, s[e].refs[r].to)} }
+      locaux == { [s EXCEPT ![e] = [@ EXCEPT !.locals = [@ EXCEPT ![l] = [@ EXCEPT !.refs = SetRefAux(@, r, UndefN)]]]] :
+                 <<e, l, r>> \in {<<e, l, r>> \in (1..Len(s)) \X (1..16) \X (1..4) :
+                                    l <= Len(s[e].locals) /\ r <= Len(s[e].locals[l].refs)
+                                    /\ RefClass(s[e].locals[l].refs[r].rk) = "block" /\ FuncNamed(s, s[e].locals[l].refs[r].to)} }
+      loc == { [s EXCEPT ![e] = [@ EXCEPT !.locals = [@ EXCEPT ![l] = [@ EXCEPT !.refs = SetRefTo(@, r, UndefN)]]]] :
+                 <<e, l, r>> \in {<<e, l, r>> \in (1..Len(s)) \X (1..16) \X (1..4) :
+                                    l <= Len(s[e].locals) /\ r <= Len(s[e].locals[l].refs)
+                                    /\ RefClass(s[e].locals[l].refs[r].rk) = "local" /\ AllNamed(s[e])} }
+  IN topaux \cup locaux \cup loc
+
 \* permutations of the top-level entities that keep the relative order of unnamed globals and of
 \* entities with the same key (attribute groups / named metadata merged in textual order);
 \* use-list order directives stay last (LLVM wants their targets defined)
@@ -169,12 +189,12 @@ Perms(s) == { [x \in 1..Len(s) |-> s[p[x]]] : p \in {q \in CandPerms(Len(s)) : P
 PatternSet == {Patterns[k] : k \in 1..Len(Patterns)}
 AllSources ==
   CASE SourceSet = "patterns" -> PatternSet
-    [] SourceSet = "faults"   -> UNION {RefFaults(s) \cup DupFaults(s) \cup ClashFaults(s) \cup QuotedFaults(s) \cup DelFaults(s) : s \in PatternSet}
+    [] SourceSet = "faults"   -> UNION {RefFaults(s) \cup DupFaults(s) \cup ClashFaults(s) \cup QuotedFaults(s) \cup DelFaults(s) \cup NumeralFaults(s) : s \in PatternSet}
     [] SourceSet = "perms"    -> UNION {Perms(s) : s \in PatternSet}
     [] SourceSet = "faultperms" -> UNION {UNION {RefFaults(t) \cup DupFaults(t) \cup ClashFaults(t) : t \in Perms(s)} : s \in {u \in PatternSet : Len(u) <= 5}}
     [] SourceSet = "alias"    -> {AliasPatterns[k] : k \in 1..Len(AliasPatterns)}
                                   \cup UNION {RefFaults(AliasPatterns[k]) : k \in 1..Len(AliasPatterns)}
-    [] SourceSet = "all"      -> PatternSet \cup UNION {RefFaults(s) \cup DupFaults(s) \cup ClashFaults(s) \cup QuotedFaults(s) \cup DelFaults(s) : s \in PatternSet}
+    [] SourceSet = "all"      -> PatternSet \cup UNION {RefFaults(s) \cup DupFaults(s) \cup ClashFaults(s) \cup QuotedFaults(s) \cup DelFaults(s) \cup NumeralFaults(s) : s \in PatternSet}
                                   \cup {AliasPatterns[k] : k \in 1..Len(AliasPatterns)}
 
 ----------------------------------------------------------------------------
